@@ -169,6 +169,9 @@ def call_value(eng, f, args, kwargs, node, fr):
             qual = f.name
             eng.emit("call", qual=qual, args=args, kwargs=kwargs, node=node, frame=fr)
             con = eng.reg.contract(qual)
+            if k == "method" and isinstance(f.recv, VObj):
+                # a contract stated for the receiver's own class overrides the inherited one
+                con = eng.reg.contract(f.recv.cls + "." + f.attr) or con
             if con is not None and not con.inline and "inline-on-constants" in con.props and all_concrete(eng, args[1:] if k == "method" else args):
                 eng.emit("inline_concrete", qual=qual, node=node)
                 return eng.call_function_node(qual.split(".")[0], qual, f.node, args, dict(kwargs), node, fr)
